@@ -445,6 +445,16 @@ def directed():
         if "range" in kw_:
             yield {"kind": "hist", "dtype": "int64", "vals": [1, 1, 2, 5, 5, 5, 9, 9, 3], "bins": 4, "kw": kw_, "vclass": "small", "positional": True}
         yield {"kind": "hist", "dtype": "float64", "vals": [0.5, 0.5, 2.25, 7.0, 7.0, 1.0], "bins": 3, "kw": kw_, "vclass": "small"}
+    # integer steps absorbed by the other operand (an infinity, a magnitude beyond 2**53 / 2**24) with NO run boundary in common: neighbouring results are equal
+    for dtA_, dtB_, big_ in (("int64", "float64", float("inf")), ("int64", "float64", 2.0 ** 60), ("int32", "float32", 2.0 ** 30), ("uint8", "float64", float("-inf")), ("float64", "int64", None)):
+        for uf_ in ("add", "subtract"):
+            ia_ = [1, 1, 2, 2, 3, 3, 4]
+            fb_ = ([big_] * 3 + [7.0] * 4) if big_ is not None else None
+            if fb_ is None:
+                yield {"kind": "rl", "dtype": dtA_, "vals": [float("inf")] * 3 + [7.0] * 4, "dtype2": dtB_, "vals2": ia_, "uf": uf_, "align": "independent", "vclass": "extreme"}
+            else:
+                yield {"kind": "rl", "dtype": dtA_, "vals": ia_, "dtype2": dtB_, "vals2": fb_, "uf": uf_, "align": "independent", "vclass": "extreme"}
+                yield {"kind": "rl", "dtype": dtB_, "vals": fb_, "dtype2": dtA_, "vals2": ia_, "uf": uf_, "align": "independent", "vclass": "extreme"}
     # constant operand on either side of a non-commutative ufunc
     for uf in sorted(NONCOMM):
         yield {"kind": "rl", "dtype": "int64", "vals": [9] * 6, "dtype2": "int64", "vals2": [0, 0, 1, 1, 1, 4], "uf": uf, "align": "constA", "vclass": "small"}
